@@ -109,6 +109,16 @@ def report(check, tier, seed, agg):
     for entry in agg['violations']:
         v = entry['violation']
         case = entry['case']
+        if v.get('clause') == 'hang' and case is not None:
+            # a wall-clock watchdog can fire because the machine stalled: the verdict needs the case to exceed twice
+            # the limit again when it runs alone
+            import signal
+            signal.signal(signal.SIGALRM, kernel._alarm)
+            again = kernel.run_one(check, case, 2 * check.plan(tier).get('case_timeout_s', 20))
+            if not any(x.get('clause') == 'hang' for x in again.get('violations') or ()):
+                print(f"note: watchdog fired for case {entry['index']} but it finishes when re-run alone - not a hang")
+                agg['violation_count'] -= 1
+                continue
         sig0 = (v.get('clause'), check.config_class(v.get('config')))
         n_same = seen_sigs.get(sig0, 0)
         seen_sigs[sig0] = n_same + 1
